@@ -110,30 +110,47 @@ pub fn pattern_score_two_atoms<const H: usize, const K1: u8, const NEG1: bool, c
     std::mem::forget(m);
 }
 
-/// two-atom pattern, indices variant: same decision and score as the conjunction, each positive
-/// atom's indices appended in atom order, negated atoms append nothing
+/// two-atom pattern, indices variant: same decision and score as `Pattern::score`; on success the
+/// positive atoms' indices are appended in atom order (each a valid witness of its own needle under
+/// its own case/normalisation flags), negated atoms append nothing
 pub fn pattern_indices_two_atoms<const H: usize, const K1: u8, const NEG1: bool, const K2: u8, const NEG2: bool>() {
     let (hay, a1, a2, base) = two_atom_inputs::<H, K1, NEG1, K2, NEG2>();
-    let mut want = Vec::with_capacity(8);
-    let e1 = spec_atom(&a1, &hay, &base, Some(&mut want));
-    let e2 = if e1.is_some() { spec_atom(&a2, &hay, &base, Some(&mut want)) } else { None };
-    let expect: Option<u32> = match (e1, e2) {
-        (Some(x), Some(y)) => Some(x as u32 + y as u32),
-        _ => None,
-    };
-    let pat = Pattern { atoms: vec![a1, a2] };
+    let pat = Pattern { atoms: vec![a1.clone(), a2.clone()] };
     let mut m = small_matcher(base.clone(), crate::fuzzy_optimal::verif_optimal::SLAB);
     m.config.ignore_case = kani::any();
     m.config.normalize = kani::any();
+    let rs = pat.score(Utf32Str::Ascii(&hay), &mut m);
+    // whatever the previous call left in the shared matcher must not matter
     let mut idx = Vec::with_capacity(8);
     let ri = pat.indices(Utf32Str::Ascii(&hay), &mut m, &mut idx);
-    assert!(ri == expect, "the indices variant returns the score of the conjunction");
+    assert!(ri == rs, "the indices variant returns the same decision and score as the score variant");
     if ri.is_some() {
-        assert!(idx.len() == want.len(), "each positive atom's indices are appended, negated atoms append nothing");
-        let mut k = 0;
-        while k < want.len() {
-            assert!(idx[k] == want[k], "indices appear in atom order");
-            k += 1;
+        let n1 = if NEG1 { 0 } else { 1 };
+        let n2 = if NEG2 { 0 } else { 2 };
+        assert!(idx.len() == n1 + n2, "each positive atom appends one index per needle character, negated atoms append nothing");
+        let h = ascii(&hay);
+        if !NEG1 {
+            let mut c1 = base.clone();
+            c1.ignore_case = a1.ignore_case;
+            c1.normalize = a1.normalize;
+            let n = match &a1.needle {
+                Utf32String::Ascii(x) => x.as_bytes()[0],
+                _ => 0,
+            };
+            assert!((idx[0] as usize) < H && matches(h[idx[0] as usize], crate::chars::AsciiChar(n), &c1), "the first positive atom's indices come first and witness its needle");
+        }
+        if !NEG2 {
+            let mut c2 = base.clone();
+            c2.ignore_case = a2.ignore_case;
+            c2.normalize = a2.normalize;
+            let nb = match &a2.needle {
+                Utf32String::Ascii(x) => [x.as_bytes()[0], x.as_bytes()[1]],
+                _ => [0, 0],
+            };
+            let i0 = idx[n1] as usize;
+            let i1 = idx[n1 + 1] as usize;
+            assert!(i0 < i1 && i1 < H, "the second atom's indices follow, strictly increasing");
+            assert!(matches(h[i0], crate::chars::AsciiChar(nb[0]), &c2) && matches(h[i1], crate::chars::AsciiChar(nb[1]), &c2), "and witness its needle");
         }
     }
     kani::cover!(ri.is_some());
